@@ -29,6 +29,7 @@ type Options struct {
 	MaxHeaderBytes     int
 	KeepAliveDisabled  bool
 	LogLevel           string // default ERROR
+	SessionTickets     bool   // enable TLS session tickets (bfe.conf ships with them disabled)
 	// BeforeModules runs after RegisterModules/InitModules; use it to add harness filters.
 	AfterInit func(srv *bfe_server.BfeServer) error
 	// ModuleConf lets a test overwrite module config files: relative path under conf root -> content.
@@ -106,6 +107,8 @@ func Start(o Options) (*Rig, error) {
 			l = fmt.Sprintf("MaxHeaderBytes = %d", o.MaxHeaderBytes)
 		case strings.HasPrefix(t, "KeepAliveEnabled") && o.KeepAliveDisabled:
 			l = "KeepAliveEnabled = false"
+		case strings.HasPrefix(t, "SessionTicketsDisabled") && o.SessionTickets:
+			l = "SessionTicketsDisabled = false"
 		case strings.HasPrefix(t, "GracefulShutdownTimeout"):
 			l = "GracefulShutdownTimeout = 1"
 		}
